@@ -1234,6 +1234,10 @@ def run(tier="quick", seed=0) -> dict:
             detail = None
             if not ok:
                 detail = {"why": why, "case": case, "how": "bounded.C12.replay(%r, detail['case'])" % name}
+                # flat copies of the distinguishing inputs, for known-finding `when` expressions (case.loop, ...)
+                inj = case.get("inject") or {}
+                detail.update(screen=case["screen"], loop=case["loop"], pop_ups=case["pop_ups"])
+                detail.update(inject_kind=inj.get("kind"), inject_idx=inj.get("idx"), inject_exc=inj.get("exc"))
                 for f in ("outcome", "exc_repr", "hung", "input_fd_open_after"):
                     if res.get(f) is not None:
                         detail[f] = res[f]
